@@ -69,6 +69,12 @@ def gen_case(prop: str, ctx: Ctx, rng: random.Random) -> dict:
         if rng.random() < 0.5:
             c['expr'][4] = ctx.filt(1, True, True)
         return c
+    if prop == 'C05' and rng.random() < 0.006:
+        # a group one of whose members can never fire (a date that does not exist), next to a live member
+        dead = ['time', ctx.tod(), 'later', 'earlier', rng.choice([['all', [['month', [2]], ['day', [30, 31]]]], ['day', []]])]
+        live = rng.choice([['interval', ref - 5 * DAY, HOUR, None], ['time', 12 * HOUR, 'later', 'earlier', None]])
+        members = [dead, live] if rng.random() < 0.5 else [live, dead]
+        return {'expr': ['group', members, None], 'queries': [ref], 'fracs': [], 'budget': 6, 'starving_member': True}
     if prop == 'C05':
         e = sanitize(ctx.base_expr(0.7, ref), rng)
         if rng.random() < 0.5:
@@ -202,6 +208,9 @@ def oracle(prop: str, zone: str, ref: Ref, c: dict) -> tuple[list, bool]:
         return bad, bool(oks)
     if prop == 'C16':
         for dt, r in res:
+            if r[0] == 'raise' and r[1] not in ('EInfiniteLoop', 'ELocationNotSet'):
+                bad.append(f'get_next({dt}) ended with {r[1]}: neither an instant nor InfiniteLoopDetectedError '
+                           '(nor a missing location / holiday setup)')
             if r[0] == 'budget':
                 what = 'get_next did not end within its time budget'
                 if c.get('unsat_interval'):
@@ -210,6 +219,21 @@ def oracle(prop: str, zone: str, ref: Ref, c: dict) -> tuple[list, bool]:
         return bad, True
     if prop in ('C05', 'C06') and is_base(e):
         anchors = interval_anchors(e, res)
+        if e[0] == 'group' and e[2] is None:
+            # the union of the members' admissible occurrences: a member that never fires must not silence the others
+            for dt, r in res:
+                if r == ['raise', 'EInfiniteLoop']:
+                    alive = []
+                    for n, m in enumerate(e[1]):
+                        if m[0] in ('time', 'interval'):
+                            v = ref.next_ref(m, dt, anchors, (n,))
+                            if isinstance(v, int):
+                                alive.append((v, n))
+                    if alive:
+                        v, n = min(alive)
+                        bad.append(f'get_next({dt}) gave up with InfiniteLoopDetectedError although member {n} has the '
+                                   f'admissible occurrence {v} (another member never fires)')
+                        decided = True
         for dt, v in oks:
             want = ref.next_ref(e, dt, anchors)
             if want == 'unknown':
@@ -334,15 +358,62 @@ def nontrivial(prop: str, c: dict, decided: bool, ref: Ref) -> bool:
     return True
 
 
+AZ_BUDGET = 30
+AZ_FIXED = [(52.5, 13.4, 0.0), (52.5, 13.4, 180.0), (-33.9, 151.2, 270.0), (69.6, 18.9, 90.0)]
+
+
+def _az_run(case: dict) -> dict:
+    env = {'PYTHONPATH': f'{coqrun.REPO}/src:{VERIF}', 'PYTHONHASHSEED': '0', 'PATH': '/usr/bin:/bin', 'TZ': 'UTC'}
+    try:
+        r = subprocess.run(['/venv/bin/python', '-m', 'harness.prod_az', str(case['lat']), str(case['lon']), str(case['az']),
+                            str(case['dt']), str(AZ_BUDGET)], cwd=VERIF, env=env, capture_output=True, text=True,
+                           timeout=AZ_BUDGET + 30)
+        res, secs = json.loads(r.stdout)
+    except Exception as e:  # noqa: BLE001
+        res, secs = ['raise', 'harness: ' + type(e).__name__], None
+    return dict(case, result=res, seconds=secs)
+
+
+def az_probe(rng: random.Random, n: int, replay_case=None) -> list:
+    """C16 for the azimuth trigger (its search is a hack around astral, not part of the producer model): every
+    get_next must end within the budget with an instant, InfiniteLoopDetectedError or LocationNotSetError"""
+    if replay_case is not None:
+        cases = [replay_case]
+    else:
+        cases = [{'kind': 'azimuth', 'lat': a, 'lon': b, 'az': c, 'dt': 1750474800 * NS} for a, b, c in AZ_FIXED]
+        for _ in range(n):
+            cases.append({'kind': 'azimuth', 'lat': round(rng.uniform(-70, 70), 1), 'lon': round(rng.uniform(-180, 180), 1),
+                          'az': rng.choice([0.0, 45.0, 90.0, 135.0, 180.0, 225.0, 270.0, 315.0, 359.99, round(rng.uniform(0, 360), 2)]),
+                          'dt': rng.randrange(1735689600, 1767225600) * NS})
+    with ThreadPoolExecutor(max_workers=coqrun.JOBS) as ex:
+        outs = list(ex.map(_az_run, cases))
+    bad = []
+    for c in outs:
+        r = c['result']
+        if r[0] == 'budget':
+            bad.append({'what': f'azimuth trigger {c["az"]} at ({c["lat"]}, {c["lon"]}): get_next did not end within {AZ_BUDGET} s',
+                        'case': c, 'observed': r})
+        elif r[0] == 'raise' and r[1] not in ('InfiniteLoopDetectedError', 'LocationNotSetError'):
+            bad.append({'what': f'azimuth trigger {c["az"]} at ({c["lat"]}, {c["lon"]}): get_next ended with {r[1]} after '
+                                f'{c["seconds"]} s: neither an instant nor InfiniteLoopDetectedError', 'case': c, 'observed': r})
+    return outs, bad
+
+
 # --------------------------------------------------------------------------------------------------
 def run(prop: str, tier: str, seed: int, scratch: Path, replay=None, model_ok=True) -> dict:
     rng = random.Random(f'{prop}-{seed}')
     zones = list(ZONES_QUICK) if tier == 'quick' else ZONES_QUICK + ZONES_MORE
     if prop == 'C16' and tier == 'quick':
         zones = zones[:5]
+    if prop == 'C16':
+        zones = zones + ['Pacific/Apia']          # skipped 2011-12-30 altogether: a gap of 24 hours
     per_zone: dict[str, list] = {}
     if replay:
         payload = json.loads(Path(replay).read_text())
+        if payload['case'].get('kind') == 'azimuth':
+            outs_az, bad_az = az_probe(rng, 0, {k: payload['case'][k] for k in ('kind', 'lat', 'lon', 'az', 'dt')})
+            return {'evaluations': 1, 'distinct_nontrivial': 1, 'rule': 'azimuth replay', 'samples': outs_az,
+                    'distribution': {}, 'corr_failures': [], 'spec_violations': bad_az, 'extra': {'replay': 'azimuth'}}
         zones = [payload['case']['zone']]
         per_zone[zones[0]] = [payload['case']]
     tables = _tables(zones)
@@ -435,7 +506,14 @@ def run(prop: str, tier: str, seed: int, scratch: Path, replay=None, model_ok=Tr
     else:
         corr_failures.append({'error': 'model does not build'})
 
-    total = sum(len(r) for _, r in outs)
+    az_info = None
+    if prop == 'C16' and not replay:
+        outs_az, bad_az = az_probe(rng, 4 if tier == 'quick' else 40)
+        spec_violations += bad_az
+        az_info = {'cases': len(outs_az), 'outcomes': dict(collections.Counter(
+            (o['result'][0] if o['result'][0] != 'raise' else o['result'][1]) for o in outs_az)),
+            'slowest_s': max((o['seconds'] or 0) for o in outs_az), 'budget_s': AZ_BUDGET}
+    total = sum(len(r) for _, r in outs) + (az_info['cases'] if az_info else 0)
     samples = []
     for z, results in outs[:2]:
         for c in results[:1]:
@@ -446,7 +524,7 @@ def run(prop: str, tier: str, seed: int, scratch: Path, replay=None, model_ok=Tr
         'distribution': {'producer_kinds': dict(dist), 'answers': dict(answers), 'zones': zones,
                          'cases_per_zone': PER_ZONE[tier]},
         'extra': {'zones_wf_tz': wf, 'skipped_budget_or_many_draws': skipped_budget, 'not_evaluated_in_coq_too_much_work': skipped_heavy,
-                  'jitter_window_tolerance_ns': 1000},
+                  'jitter_window_tolerance_ns': 1000, 'azimuth_trigger_probe': az_info},
     }
 
 
@@ -478,6 +556,16 @@ def match_known(prop: str, v: dict, known: list):
         if f.get('class') == 'F9' and prop == 'C16':
             if v['case'].get('unsat_interval') and 'never accepts' in v['what']:
                 return f['id']
+        if f.get('class') == 'F18' and prop == 'C05':
+            if v['case'].get('expr', [None])[0] == 'group' and 'another member never fires' in v['what']:
+                return f['id']
+        if f.get('class') == 'F19' and prop == 'C16':
+            e = v['case'].get('expr', [None])
+            if 'ended with EValueError' in v['what'] and '"after"' in json.dumps(e):
+                return f['id']
+        if f.get('class') == 'F17' and prop == 'C16':
+            if v['case'].get('kind') == 'azimuth' and 'OverflowError' in v['what']:
+                return f['id']
         if f.get('class') == 'F6' and prop == 'C14':
             e = v['case']['expr']
             if e[0] == 'jitter' and e[2] < 0 and 'firings attributed' in v['what']:
@@ -489,6 +577,9 @@ def replay_known(prop: str, f: dict, scratch: Path):
     if 'case' not in f:
         return None
     c = f['case']
+    if c.get('kind') == 'azimuth':
+        _, bad = az_probe(random.Random(0), 0, c)
+        return bool(bad)
     res = _impl_zone(c['zone'], [c], scratch)
     bad, _ = oracle(prop, c['zone'], Ref(c['zone']), res[0])
     return bool(bad)
